@@ -1455,9 +1455,13 @@ type c08Probe struct {
 	API   string  `json:"api"`
 	Ms    float64 `json:"ms"`
 	CpuMs float64 `json:"cpu_ms"`
-	Out   string  `json:"outcome"`
-	Msg   string  `json:"msg,omitempty"`
-	Loc   bool    `json:"located"`
+	// AllocBytes: bytes allocated during the call (runtime.MemStats.TotalAlloc) - deterministic, unlike
+	// the CPU time, which for inputs that allocate hundreds of MB is dominated by page faults and GC
+	// locality and varies several-fold with the load of the machine
+	AllocBytes float64 `json:"alloc_bytes"`
+	Out        string  `json:"outcome"`
+	Msg        string  `json:"msg,omitempty"`
+	Loc        bool    `json:"located"`
 	// Truncated: the measurement was stopped when the CPU budget given by the parent was used up;
 	// CpuMs / Ms are then lower bounds
 	Truncated bool `json:"truncated,omitempty"`
@@ -1579,6 +1583,7 @@ func runC08Probe(c *Ctx) {
 	n, _ := strconv.Atoi(spec[1])
 	onlyAPI := os.Getenv("VERIF_C08_PROBE_API")
 	budget, _ := strconv.ParseFloat(os.Getenv("VERIF_C08_PROBE_BUDGET_MS"), 64)
+	reps, _ := strconv.Atoi(os.Getenv("VERIF_C08_PROBE_REPS"))
 	src := c08ProbeInput(spec[0], n)
 	var out []c08Probe
 	for _, api := range c08APIs {
@@ -1588,6 +1593,8 @@ func runC08Probe(c *Ctx) {
 		api := api
 		measure := func() (p c08Probe) {
 			p = c08Probe{Kind: spec[0], N: n, Bytes: len(src), API: api.name}
+			var m0 runtime.MemStats
+			runtime.ReadMemStats(&m0)
 			start := time.Now()
 			cpu0 := c08CpuMs()
 			defer func() {
@@ -1597,6 +1604,9 @@ func runC08Probe(c *Ctx) {
 				}
 				p.Ms = float64(time.Since(start).Microseconds()) / 1000
 				p.CpuMs = c08CpuMs() - cpu0
+				var m1 runtime.MemStats
+				runtime.ReadMemStats(&m1)
+				p.AllocBytes = float64(m1.TotalAlloc - m0.TotalAlloc)
 			}()
 			_, err := api.run(src, filepath.Join(c.Scratch, "probe.mro"), nil)
 			if err != nil {
@@ -1612,7 +1622,14 @@ func runC08Probe(c *Ctx) {
 			return p
 		}
 		if budget <= 0 || onlyAPI == "" {
-			out = append(out, measure())
+			best := measure()
+			for rep := 1; rep < reps && best.Out != "panic"; rep++ {
+				runtime.GC()
+				if p := measure(); p.CpuMs < best.CpuMs {
+					best = p
+				}
+			}
+			out = append(out, best)
 			continue
 		}
 		start := time.Now()
@@ -1642,6 +1659,10 @@ func runC08Probe(c *Ctx) {
 type c08Job struct {
 	kind string
 	n    int
+	// reps > 1: every complete (not budgeted) measurement is repeated and the one with the least CPU
+	// time is reported (the re-measurement before a timing verdict: one run under load can be several
+	// times slower - GC work on a heap of hundreds of MB is memory-bound - without the code being so)
+	reps int
 }
 
 type c08JobRes struct {
@@ -1661,7 +1682,8 @@ type c08ScaleState struct {
 func c08RunProbe(c *Ctx, self string, tag string, j c08Job, api string, budgetMs float64) c08JobRes {
 	outf := filepath.Join(c.Scratch, fmt.Sprintf("probe-%s-%s-%d%s.json", tag, j.kind, j.n, api))
 	cmd := exec.Command(self, "-tier", c.Tier, "-out", outf, "-repo", c.RepoDir, "C08-probe")
-	cmd.Env = append(os.Environ(), fmt.Sprintf("VERIF_C08_PROBE=%s:%d", j.kind, j.n), "GOMAXPROCS=2")
+	cmd.Env = append(os.Environ(), fmt.Sprintf("VERIF_C08_PROBE=%s:%d", j.kind, j.n), "GOMAXPROCS=2",
+		fmt.Sprintf("VERIF_C08_PROBE_REPS=%d", j.reps))
 	if api != "" {
 		cmd.Env = append(cmd.Env, "VERIF_C08_PROBE_API="+api, fmt.Sprintf("VERIF_C08_PROBE_BUDGET_MS=%.0f", budgetMs))
 	}
@@ -1739,7 +1761,7 @@ func c08ScalingFirstPass(c *Ctx) *c08ScaleState {
 	var jobs []c08Job
 	for _, p := range probes {
 		for _, n := range p.ns {
-			jobs = append(jobs, c08Job{p.kind, n})
+			jobs = append(jobs, c08Job{kind: p.kind, n: n})
 		}
 	}
 	// start order: the largest size of the kinds that take longest first, so that the longest job is
@@ -1847,7 +1869,11 @@ func c08ScalingFinish(c *Ctx, st *c08ScaleState) {
 	type pt struct {
 		bytes int
 		cpu   float64
+		alloc float64
 	}
+	// a growth verdict needs both: CPU time growing faster than size^alphaMax AND (for complete
+	// measurements) allocation growing faster than size^alphaAlloc - see c08Probe.AllocBytes
+	const alphaAlloc = 1.35
 	// verdict for one kind given its results in increasing n: (key suffix, what); first = CPU times of the
 	// first pass by "n/api", quoted next to a measurement that was stopped at its budget
 	type verdict struct{ cls, what string }
@@ -1886,7 +1912,16 @@ func c08ScalingFinish(c *Ctx, st *c08ScaleState) {
 				}
 				if prev, ok := last[p.API]; ok && p.CpuMs > 1000 && prev.cpu > 0 && p.Bytes > prev.bytes {
 					alpha := math.Log(p.CpuMs/prev.cpu) / math.Log(float64(p.Bytes)/float64(prev.bytes))
-					if alpha > alphaMax {
+					allocGrows := true
+					// (only a measurement that allocates a lot - 50 MB or more - is memory-bound in this sense;
+					// CPU-bound growth with little allocation, like the struct-assign probe, is judged on CPU time)
+					if !p.Truncated && prev.alloc > 0 && p.AllocBytes >= 50e6 {
+						allocGrows = math.Log(p.AllocBytes/prev.alloc)/math.Log(float64(p.Bytes)/float64(prev.bytes)) > alphaAlloc
+					}
+					if alpha > alphaMax && !allocGrows {
+						r.hist("scaling-probe-cpu-superlinear-allocation-linear(no verdict)")
+					}
+					if alpha > alphaMax && allocGrows {
 						grows := fmt.Sprintf("like size^%.1f", alpha)
 						if p.Truncated {
 							grows = fmt.Sprintf("at least like size^%.1f", alpha)
@@ -1898,7 +1933,7 @@ func c08ScalingFinish(c *Ctx, st *c08ScaleState) {
 				if p.Truncated {
 					delete(last, p.API) // a lower bound is no base for the growth to the next size
 				} else {
-					last[p.API] = pt{p.Bytes, math.Max(p.CpuMs, 1)}
+					last[p.API] = pt{p.Bytes, math.Max(p.CpuMs, 1), p.AllocBytes}
 				}
 			}
 		}
@@ -1919,7 +1954,7 @@ func c08ScalingFinish(c *Ctx, st *c08ScaleState) {
 			if q.Truncated {
 				delete(lastAlone, q.API)
 			} else {
-				lastAlone[q.API] = pt{q.Bytes, math.Max(q.CpuMs, 1)}
+				lastAlone[q.API] = pt{q.Bytes, math.Max(q.CpuMs, 1), q.AllocBytes}
 			}
 		}
 		for i, res := range rs {
@@ -1928,7 +1963,9 @@ func c08ScalingFinish(c *Ctx, st *c08ScaleState) {
 				total += p.CpuMs
 			}
 			if c.Thorough || res.crash != "" || len(res.probes) != len(c08APIs) || total < 500 {
-				nr := c08RunProbe(c, st.self, fmt.Sprintf("b%d", i), res.j, "", 0)
+				jr := res.j
+				jr.reps = 3
+				nr := c08RunProbe(c, st.self, fmt.Sprintf("b%d", i), jr, "", 0)
 				for _, q := range nr.probes {
 					noteProbe(q)
 				}
@@ -1944,6 +1981,28 @@ func c08ScalingFinish(c *Ctx, st *c08ScaleState) {
 				}
 				budget = budget*1.05 + 50
 				one := c08RunProbe(c, st.self, fmt.Sprintf("b%d", i), res.j, p.API, budget)
+				// one measurement under load proves nothing: a result that would give a timing verdict
+				// (over the limit, superlinear against the previous size, or stopped at the budget) is
+				// measured again - twice if complete, once if stopped - and the least CPU time counts
+				suspicious := func(q c08Probe) bool {
+					if q.Truncated || q.CpuMs > limitOf(q.Bytes) {
+						return true
+					}
+					if prev, ok := lastAlone[q.API]; ok && q.CpuMs > 1000 && prev.cpu > 0 && q.Bytes > prev.bytes {
+						return math.Log(q.CpuMs/prev.cpu)/math.Log(float64(q.Bytes)/float64(prev.bytes)) > alphaMax
+					}
+					return false
+				}
+				for rep := 0; rep < 2 && one.crash == "" && len(one.probes) == 1 && suspicious(one.probes[0]); rep++ {
+					if rep == 1 && one.probes[0].Truncated {
+						break
+					}
+					ag := c08RunProbe(c, st.self, fmt.Sprintf("b%dr%d", i, rep), res.j, p.API, budget)
+					if ag.crash == "" && len(ag.probes) == 1 &&
+						(one.probes[0].Truncated && !ag.probes[0].Truncated || ag.probes[0].Truncated == one.probes[0].Truncated && ag.probes[0].CpuMs < one.probes[0].CpuMs) {
+						one = ag
+					}
+				}
 				if one.crash != "" {
 					nr.crash, nr.probes = one.crash, nil
 					break
